@@ -225,10 +225,11 @@ def run_job(job):
                         kf = 'KF-C03-table-delimiter-cell-count'
                     elif leafspell.lazy_line_reinterpreted(case):
                         kf = 'KF-C03-lazy-line-reinterpreted'
-                    elif (ctx in ('in-quote-then-text', 'in-list-item-then-text') and 'after' in got
-                          and got.rindex('after') < got.rindex('</blockquote>' if ctx == 'in-quote-then-text' else '</ul>')):
+                    elif (ctx in ('in-quote-then-text', 'in-list-item-then-text')
+                          and normalize_html(got) == normalize_html(render(md[:-len('after\n')] + ('> ' if ctx == 'in-quote-then-text' else '  ') + 'after\n'))):
                         # class: a container whose last block is not a paragraph, directly followed by a line of text without marker;
-                        # symptom: that text ends up inside the container
+                        # symptom: the output is exactly that of the same document with the line written inside the container (the leaf
+                        # itself is judged without this allowance in the contexts in-quote / in-list-item)
                         kf = 'KF-C03-text-after-non-paragraph-taken-as-lazy'
                     elif (ctx in ('in-list-item', 'in-list-item-then-text') and case[0] == 'indented' and any(l and not l.strip(' ') for l in case[1])
                           and normalize_html(got) == normalize_html(leafspell.in_context(leafspell.blank_lines_emptied(case), ctx)[1])):
